@@ -136,7 +136,7 @@ func sigParts(d *declT) (tparams, param, result string) {
 // parameters, parameters, results.  extract builds the same text from the AST.
 func sigString(d *declT, m int) string {
 	tp, par, res := sigParts(d)
-	if d.N == "init" {
+	if d.N == "init" && d.K == "func" {
 		return fmt.Sprintf("(%s)[%s]()()#%d", recvText(d), tp, m)
 	}
 	ps, rs := "x int32", "res int32"
@@ -249,7 +249,7 @@ func renderFn(b *strings.Builder, d *declT, own int) {
 	if tp != "" {
 		head += "[" + tp + "]"
 	}
-	if d.N == "init" {
+	if d.N == "init" && d.K == "func" {
 		head += "()"
 	} else {
 		// named results: the body fits every signature of the universe (override-signature keeps it)
@@ -298,7 +298,7 @@ func renderFn(b *strings.Builder, d *declT, own int) {
 			b.WriteString("\t_ = _gopherjs_original_" + d.N + "\n")
 		}
 	}
-	if d.N == "init" {
+	if d.N == "init" && d.K == "func" {
 		b.WriteString("\t_ = m\n}\n")
 	} else {
 		b.WriteString("\tres = m\n\treturn\n}\n")
